@@ -88,7 +88,7 @@ def gen_ladder(tier, seed, work):
 def gen_threads_and_ladder(tier, seed, work):
     a, sa = gen_threads(tier, seed, work)
     sa = dict(sa)
-    for name, g in (('ladder', gen_ladder), ('api', gen_api)):
+    for name, g in (('ladder', gen_ladder), ('api', gen_api), ('values', gen_values), ('frames', gen_frames)):
         b, sb = g(tier, seed, work)
         a.update(b)
         sa[name] = sb
